@@ -21,9 +21,34 @@ def fn_index(c):
     return idx
 
 
+def _normalise_order(rows):
+    """rows that describe order-insensitive facts are compared as sets: runs of pure field initialisations (`init`, no wire
+    operation involved) and the trailing `bind` rows; everything that touches the wire keeps its order"""
+    out = []
+    run = []
+
+    def flush():
+        if run:
+            out.extend(sorted(run))
+            del run[:]
+    for r in rows:
+        body = r.split(" | ", 1)[1] if " | " in r else r
+        if body.startswith("init "):
+            run.append(r)
+        else:
+            flush()
+            out.append(r)
+    flush()
+    # trailing bind rows (emitted after all op rows)
+    i = len(out)
+    while i > 0 and (" | bind " in out[i - 1] or out[i - 1].startswith("- | bind ")):
+        i -= 1
+    return out[:i] + sorted(out[i:])
+
+
 def rows_of(c, f, opts):
     T.set_crate(c)
-    rows = T.trace_strings(f, calls=bool(opts.get("calls")))
+    rows = _normalise_order(T.trace_strings(f, calls=bool(opts.get("calls"))))
     if opts.get("writer"):
         body = H.body_of(f)
         rows.append("writer-body | " + T._stable_paths(H.show(body)))
@@ -38,6 +63,13 @@ def compare(rep, c, prop, rule):
     n_fns = 0
     for name, ent in spec["functions"].items():
         f = idx.get(name)
+        if f is None:
+            # moved to another module? accept a unique function with the same self type and name
+            tail = name.split("::<")[-1] if "::<" in name else name.split("::")[-1]
+            cands = [k for k in idx if k.endswith(tail) and k.split("::")[-1] == name.split("::")[-1]]
+            if len(cands) == 1:
+                f = idx[cands[0]]
+                rep.notes.append("table for %s matched to moved function %s" % (name, cands[0]))
         if f is None:
             rep.add("%s|trace|missing-fn" % name, rule, False,
                     "anchor-lost: function %s (spec table '%s') no longer exists: its wire schedule cannot be compared" % (name, ent.get("table", "")))
